@@ -37,7 +37,7 @@ def specStep (l : Lim) (s : SpecSt) : Op → SpecSt
     else { s with m := kvs.foldl (fun m x => m.upd x.1 (live s.now (some (x.2, some (deadlineAfter l s.now ttl))))) s.m }
   | .get _ => s
   | .remove k => { s with m := s.m.upd k none }
-  | .removeWithPrefix p => { s with m := fun k => if p.isPrefixOf k then none else s.m k }
+  | .removeWithPrefix p _ => { s with m := fun k => if p.isPrefixOf k then none else s.m k }
   | .clear => { s with m := fun _ => none }
   | .expireAt k t =>
     match s.m k with
@@ -61,7 +61,7 @@ def OutOK (l : Lim) (s : SpecSt) : Op → Out → Prop
   | .setBatchTtl kvs ttl, out =>
     out = (if ttl ≤ 0 then .err .badTtl else if kvs.isEmpty then .ok else if batchBad l kvs then .err .badBatch else .ok)
   | .get k, out => out = .value ((s.m k).map (·.1))
-  | .removeWithPrefix p, out =>
+  | .removeWithPrefix p _, out =>
     ∃ ks : List Key, ks.Nodup ∧ (∀ k, k ∈ ks ↔ (p.isPrefixOf k = true ∧ (s.m k).isSome)) ∧ out = .count ks.length
   | _, out => out = .ok
 
